@@ -402,6 +402,25 @@ class CallMixin:
             return self.minmax(name, args, node)
         if name == "float":
             return self.to_float(args[0], node)
+        if name == "round":
+            # round(x, n) on a finite real: some real within half a unit of the n-th decimal of x, of x's sign (the decimal grid and
+            # banker's ties are not modelled: an over-approximation, so a proof covers every value CPython can return)
+            v = self.force(args[0])
+            nd = args[1] if len(args) > 1 else kwargs.get("ndigits")
+            if isinstance(v, (int, float)) and not isinstance(v, bool) and (nd is None or (isinstance(nd, int) and not isinstance(nd, bool))):
+                return round(v, nd) if nd is not None else round(v)
+            if isinstance(v, Sym) and v.ty == "real" and isinstance(nd, int) and not isinstance(nd, bool):
+                r = z3.Real(fresh_name("round"))
+                half = z3.Q(5, 10 ** (nd + 1)) if nd >= 0 else z3.RealVal(5 * 10 ** (-nd - 1))
+                self.path.assume(z3.And(r - v.t <= half, v.t - r <= half, z3.Implies(v.t >= 0, r >= 0), z3.Implies(v.t <= 0, r <= 0)))
+                return wrap_real(r)
+            if isinstance(v, SFloat) and isinstance(nd, int) and not isinstance(nd, bool):
+                # extended real: inf and nan are returned unchanged by round(x, n); the finite case as above
+                r = z3.Real(fresh_name("round"))
+                half = z3.Q(5, 10 ** (nd + 1)) if nd >= 0 else z3.RealVal(5 * 10 ** (-nd - 1))
+                self.path.assume(z3.And(r - v.v <= half, v.v - r <= half, z3.Implies(v.v >= 0, r >= 0), z3.Implies(v.v <= 0, r <= 0)))
+                return SFloat(v.k, r)
+            raise Unsupported(f"round({v!r}, {nd!r})")
         if name == "bool":
             t = self.truth(args[0])
             return t if isinstance(t, bool) else wrap_bool(t)
@@ -663,6 +682,10 @@ class CallMixin:
                             raise Unsupported("update with symbolic member")
                         obj.slots[nm] = True
                     return None
+                if isinstance(other, EnumMap):  # set.update(<dict>) adds the keys
+                    other = self.call_method(other, "keys", [], {}, node)
+                if isinstance(other, dict) and all(isinstance(k, EnumVal) for k in other):
+                    return self.call_method(obj, "update", [list(other.keys())], {}, node)
                 if isinstance(other, EnumSet):
                     for n in obj.slots:
                         a, b = obj.slots[n], other.slots[n]
